@@ -472,3 +472,58 @@ func ruleBoundsEmpty(rule string) func(*Ctx) {
 		}
 	}
 }
+
+// ruleVertexFilter: C17.dup — while a path is turned into the vertex ring, an input point is skipped exactly when
+// it equals the previously KEPT point (repeating a vertex must not change the input; nothing else may be dropped).
+func ruleVertexFilter(rule string) func(*Ctx) {
+	return func(c *Ctx) {
+		f := c.fn("addPathsToVertexList")
+		// the innermost loop that calls (VertexPoolList).Add
+		var inner *loopInfo
+		for _, ci := range callsTo(c, f, "(VertexPoolList).Add") {
+			for _, l := range naturalLoops(f) {
+				if l.blocks[ci.Block()] && (inner == nil || len(l.blocks) < len(inner.blocks)) {
+					inner = l
+				}
+			}
+		}
+		if inner == nil {
+			fatalf("addPathsToVertexList: vertex loop not found")
+		}
+		ll := inner
+		outs := (&explorer{c: c, f: f, stop: func(b *ssa.BasicBlock) bool { return !ll.blocks[b] }}).explore(inner.header)
+		bad := ""
+		n := 0
+		for _, p := range outs {
+			if p.end != "loop" {
+				continue
+			}
+			n++
+			first, differs, evaluated := false, false, false
+			var extra []string
+			for _, cd := range p.conds {
+				switch {
+				case strings.Contains(cd.expr, "== nil)"):
+					first = cd.taken
+				case strings.Contains(cd.expr, ".pt != "):
+					evaluated = true
+					differs = cd.taken
+				case strings.Contains(cd.expr, "rangeindex") || strings.HasPrefix(cd.expr, "(") && strings.Contains(cd.expr, " < len("):
+				default:
+					extra = append(extra, cd.expr)
+				}
+			}
+			added := p.called("(VertexPoolList).Add")
+			want := first || (evaluated && differs)
+			if added != want {
+				bad = fmt.Sprintf("point kept=%v on path [%s]; it must be kept iff it is the first point or differs from the previous kept point", added, p.condString())
+			}
+			if len(extra) > 0 && bad == "" {
+				bad = "keeping a point also depends on " + strings.Join(extra, ", ")
+			}
+		}
+		c.check(bad == "" && n >= 3, rule, rule+":addPathsToVertexList:consecutive-duplicates", inner.header.Instrs[0].Pos(), "addPathsToVertexList",
+			fmt.Sprintf("a point is skipped exactly when it equals the previously kept point (%d body paths)", n), bad,
+			"repeating any vertex must not change the result, and no other vertex may be dropped: a closed path that passes through its start vertex again mid-path keeps that vertex")
+	}
+}
